@@ -254,6 +254,73 @@ def _sqlite_faults_1(mod, real_connect, known, pairs, shape, interrupt):
     return traces
 
 
+# ---- SQLite: the saving PROCESS dies at every statement of a large save (a hot journal is left behind) -------------------------
+def _kill_child(args):
+    folder, new, shape, k, repo = args
+    import os
+
+    os.environ["VERIF_REPO"] = repo
+    from . import common
+
+    common.use_repo()
+    from black_it.utils import sqlite3_checkpointing as mod
+
+    real_connect = sqlite3.connect
+
+    class Die(_Ctl):
+        def tick(self, name):
+            self.n += 1
+            if self.n == self.fail_at:
+                os._exit(7)            # no rollback, no close: what a kill -9 or a power cut leaves
+
+    ctl = Die(k)
+
+    class _Shim:
+        def __getattr__(self, n):
+            return getattr(sqlite3, n)
+
+        @staticmethod
+        def connect(*a, **kw):
+            return _ProxyConn(real_connect(*a, **kw), ctl)
+
+    mod.sqlite3 = _Shim()
+    with quiet():
+        ckpt.save(folder, *new, "sqlite", shape)
+    os._exit(0)
+
+
+def sqlite_kill_traces():
+    import multiprocessing as mp
+
+    from .common import REPO
+
+    known = ckpt.Known(["A", "B"], "sqlite", BIG)
+    traces = []
+    ctx = mp.get_context("spawn")
+    for before, prev, new in [("same-run", ("A", 2), ("A", 3)), ("other-run-more", ("B", 4), ("A", 3))]:
+        for k in range(1, 12):
+            folder = tempfile.mkdtemp(prefix="verif-c06-kill-")
+            try:
+                with quiet():
+                    ckpt.save(folder, *prev, "sqlite", BIG)
+                p = ctx.Process(target=_kill_child, args=((folder, new, BIG, k, str(REPO)),))
+                p.start()
+                p.join(300)
+                if p.exitcode != 7:
+                    if p.is_alive():
+                        p.kill()
+                    break                  # k is past the last statement (the save completed) - or the child could not run
+                evs = [{"e": "save", "b": "sqlite", "run": prev[0], "rows": prev[1]},
+                       {"e": "interrupted", "b": "sqlite", "run": new[0], "rows": new[1], "point": f"process death at statement {k}"}]
+                with quiet():
+                    evs.append(ckpt.load(folder, "sqlite", known, [new, prev]))
+                traces.append({"ev": evs, "before": before, "at": f"kill:{k}", "sub": f"process death at statement {k} (large state)", "file": "checkpoint.sqlite",
+                               "real": outcome(evs[-1], prev, new), "predicted": None, "prev": prev, "new": new})
+            finally:
+                shutil.rmtree(folder, ignore_errors=True)
+    return traces
+
+
 # ---- JSON/pandas back-end: an exception raised by every serialisation primitive of the real save ---------------------------
 class _ModShim:
     """stands for a module inside json_pandas_checkpointing: the named callables tick (and may fail) before they run"""
@@ -427,6 +494,9 @@ def run(tier: str) -> int:
     sql = sqlite_fault_traces()
     jf = json_fault_traces()
     chk.extra["json_exception_points"] = len(jf)
+    kl = sqlite_kill_traces()
+    chk.extra["sqlite_process_deaths"] = len(kl)
+    sql = sql + kl
     allt = traces + sql + jf
     doc = {"traces": [{"ev": [_tl(e) for e in t["ev"]]} for t in allt]}
     res = tlc.validate("CheckpointTrace", "CheckpointTrace.cfg", doc, chunk=3000)
